@@ -1,60 +1,6 @@
-// check <Cnn> [--tier quick|thorough] [--replay file]   |   check child <name> <args...>
+// check <Cnn> [--tier quick|thorough] [--replay file]   |   check child <role> <args...>
 package main
 
-import (
-	"fmt"
-	"os"
+import "verifharness/kit/driver"
 
-	"verifharness/kit/env"
-	"verifharness/kit/report"
-	"verifharness/kit/proc"
-)
-
-func main() {
-	if len(os.Args) < 2 {
-		fmt.Println("usage: check <Cnn> [--tier quick|thorough] [--replay file]")
-		os.Exit(2)
-	}
-	env.Quiet()
-	id := os.Args[1]
-	if id == "child" {
-		if len(os.Args) < 3 {
-			os.Exit(2)
-		}
-		fn, ok := proc.Lookup(os.Args[2])
-		if !ok {
-			fmt.Fprintln(os.Stderr, "unknown child role", os.Args[2])
-			os.Exit(2)
-		}
-		code := fn(os.Args[3:])
-		os.Exit(code)
-	}
-	tier, replay := "", ""
-	for i := 2; i < len(os.Args); i++ {
-		switch os.Args[i] {
-		case "--tier":
-			if i+1 < len(os.Args) {
-				tier = os.Args[i+1]
-				i++
-			}
-		case "--replay":
-			if i+1 < len(os.Args) {
-				replay = os.Args[i+1]
-				i++
-			}
-		}
-	}
-	c, ok := checks[id]
-	if !ok {
-		fmt.Println("unknown property", id)
-		os.Exit(2)
-	}
-	r := report.New(id, c.Level, tier)
-	r.Replay = replay
-	code := 2
-	func() {
-		defer env.Cleanup()
-		code = c.Fn(r)
-	}()
-	os.Exit(code)
-}
+func main() { driver.Main(checks) }
